@@ -9,4 +9,6 @@ THEOREMS = [
     "JanetModel.Props.C02.regtemp_disjoint",
     "JanetModel.Props.C02.regtemp_model_eq",
     "JanetModel.Props.C02.sem_context_free",
+    "JanetModel.Props.C02.frame_setup_shape",
+    "JanetModel.Props.C02.mkRegs_omitted_nil",
 ]
